@@ -27,8 +27,9 @@ CLAIMS = {
             "Tie: session correspondence - after EVERY step of random histories (and of every sequence of <= 3 operations over "
             "a 20-letter alphabet in the thorough tier) working, reference and original series are compared with the model.",
             "values of external routines are data; bounds that must coincide with computed samples are sent symbolically "
-            "(@i); commuting of shift/scale with the pipeline follows from C07 + C03 kernel linearity and is checked by the "
-            "oracle on the real code rather than restated as one theorem."),
+            "(@i). TWV.Properties.C08Commute proves the last clause: stretch / loop / matchRef commute with y -> a*y+b and "
+            "x -> c*x+d (c > 0), and weaver_pipeline_commutes_y / _x: scaling and shifting before recreate + integral_match "
+            "ends in the same state as doing it afterwards."),
     "C09": ("8/C09",
             "Lean 4 theorems: wf_step / wf_program (the invariant 'equal lengths, strictly increasing x, >= 2 samples' for "
             "working, reference and original series is preserved by all 19 operation kinds under their documented "
